@@ -33,8 +33,12 @@ CONSTANTS Names,     \* compartment names
 Branches == {"agents", "pool"}
 TplProcs(t) == IF t = "T0" THEN {} ELSE {"p"}
 TplSteps(t) == CASE t = "T2" -> {"s1", "s2"} [] t = "T3" -> {"d"}
-                 [] t = "T4" -> {"d", "s1"} [] OTHER -> {}
-TplDerivers(t) == IF t \in {"T3", "T4"} THEN {"d"} ELSE {}
+                 [] t = "T4" -> {"d", "s1"} [] t = "T5" -> {"d", "e"} [] OTHER -> {}
+TplDerivers(t) == CASE t \in {"T3", "T4"} -> {"d"} [] t = "T5" -> {"d", "e"} [] OTHER -> {}
+\* the step whose effect a step must see when it runs (same compartment):
+\* its flow dependency, or the deriver declared before it
+Upstream(t, s) == CASE s = "s2" -> "s1" [] (t = "T4" /\ s = "s1") -> "d"
+                    [] (t = "T5" /\ s = "e") -> "d" [] OTHER -> "-"
 TplDeps(t, s) == IF s = "s2" THEN {"s1"} ELSE {}
 
 NewComp(t, x0) == [tpl |-> t, x |-> x0, cnt |-> [s \in TplSteps(t) |-> 0]]
@@ -45,8 +49,13 @@ VARIABLES
   origin,  \* for every compartment location: where that same node was before
            \* the last tick (a location) or <<"new">>
   invoked, \* paths of the processes / steps run in the last tick -> how often
-  now, err, lastop
-vars == <<tree, eseq, origin, invoked, now, err, lastop>>
+  leaves,  \* a third branch holding plain variables: name -> value (default 5)
+  seen,    \* for the steps run in the last tick that have an upstream step:
+           \* path -> the upstream counter they must have seen
+  now, err, lastop,
+  lastmode \* "proc" / "step": who issued the last operation
+vars == <<tree, eseq, origin, invoked, leaves, seen, now, err, lastop, lastmode>>
+LeafDefault == 5
 
 Locs(T) == UNION {{<<b, k>> : k \in DOMAIN T[b]} : b \in Branches}
 CompAt(T, l) == T[l[1]][l[2]]
@@ -72,7 +81,9 @@ DelS(S, b, k) ==
   [tree |-> [S.tree EXCEPT ![b] = Without(@, k)],
    eseq |-> DropUnder(S.eseq, <<b, k>>),
    origin |-> Without(S.origin, <<b, k>>)]
-DeriverSeq(b, k, t) == IF TplDerivers(t) = {} THEN <<>> ELSE <<<<b, k, "d">>>>
+DeriverSeq(b, k, t) == CASE t \in {"T3", "T4"} -> <<<<b, k, "d">>>>
+                         [] t = "T5" -> <<<<b, k, "d">>, <<b, k, "e">>>>
+                         [] OTHER -> <<>>
 PutS(S, b, k, comp, org) ==
   [tree |-> [S.tree EXCEPT ![b] = With(@, k, comp)],
    eseq |-> S.eseq \o DeriverSeq(b, k, comp.tpl),
@@ -96,9 +107,16 @@ OpOK(T, op) ==
     [] op.op = "moveback" -> Has(T, "pool", op.k) /\ ~Has(T, "agents", op.k)
     [] op.op = "adddel" -> ~Has(T, "agents", op.k) /\ Has(T, "agents", op.k2) /\ op.k # op.k2
     [] op.op = "gendel" -> ~Has(T, "agents", op.k) /\ Has(T, "agents", op.k2) /\ op.k # op.k2
+    [] op.op = "addleaf" -> op.k \notin DOMAIN leaves
+    [] op.op = "delleaf" -> op.k \in DOMAIN leaves
+
+LeavesAfter(L, op) ==
+  CASE op.op = "addleaf" -> With(L, op.k, op.v)
+    [] op.op = "delleaf" -> Without(L, op.k)
+    [] OTHER -> L
 
 Struct(S, op) ==
-  CASE op.op = "none" -> S
+  CASE op.op \in {"none", "addleaf", "delleaf"} -> S
     [] op.op = "add" -> PutS(S, "agents", op.k, NewComp("T0", op.x0), New)
     [] op.op \in {"del", "delpath"} -> DelS(S, "agents", op.k)
     [] op.op = "gen" -> PutS(S, "agents", op.k, NewComp(op.tpl, op.x0), New)
@@ -136,19 +154,26 @@ StepPhase(T, sq) ==
            [s \in DOMAIN @ |-> @[s] + (IF s \in TplDerivers(T[b][k].tpl)
                                           THEN Occurs(sq, <<b, k, s>>) ELSE 1)]]]]
 
+\* what every step that ran, and has an upstream step, must have seen: the
+\* upstream counter after this phase's increment
+SeenOf(T, R) ==
+  [p \in {r \in R : Upstream(CompAt(T, <<r[1], r[2]>>).tpl, r[3]) # "-"} |->
+     CompAt(T, <<p[1], p[2]>>).cnt[Upstream(CompAt(T, <<p[1], p[2]>>).tpl, p[3])]]
+
 Init ==
   /\ tree = [agents |-> <<>>, pool |-> <<>>]
   /\ eseq = <<>> /\ origin = <<>> /\ invoked = <<>>
-  /\ now = 0 /\ err = FALSE /\ lastop = [op |-> "none"]
+  /\ leaves = <<>> /\ seen = <<>>
+  /\ now = 0 /\ err = FALSE /\ lastop = [op |-> "none"] /\ lastmode = "proc"
 
 Tick(op) ==
   /\ ~err /\ now < MaxTicks
   /\ OpOK(tree, op)
-  /\ lastop' = op
+  /\ lastop' = op /\ lastmode' = "proc"
   /\ now' = now + 1
   /\ IF op.op = "addex"
        THEN /\ err' = TRUE
-            /\ UNCHANGED <<tree, eseq, origin, invoked>>
+            /\ UNCHANGED <<tree, eseq, origin, invoked, leaves, seen>>
        ELSE LET P == ProcPaths(tree)
                 S0 == [tree |-> tree, eseq |-> eseq,
                        origin |-> [l \in Locs(tree) |-> l]]
@@ -161,7 +186,55 @@ Tick(op) ==
                /\ origin' = S1.origin
                /\ invoked' = [p \in P \cup StepPaths(T3) |->
                                 IF p \in DeriverPaths(T3) THEN Occurs(S1.eseq, p) ELSE 1]
+               /\ seen' = SeenOf(T3, StepPaths(T3))
+               /\ leaves' = LeavesAfter(leaves, op)
                /\ err' = FALSE
+
+(* The same operations issued by a *step* (a flow step without dependencies   *)
+(* whose path sorts last in its layer).  The processes' updates are applied   *)
+(* first; in the step phase the derivers run, then the first flow layer (all  *)
+(* s1 of the compartments present when the phase began, then the director's   *)
+(* structural update), then the second layer: the s2 that were there when the *)
+(* phase began and still are at their place.  Steps created or moved during   *)
+(* the phase first run in the next one.                                       *)
+Bump(T, R) ==   \* +1 to the counter of every step path in R
+  [b \in Branches |->
+     [k \in DOMAIN T[b] |->
+        [T[b][k] EXCEPT !.cnt = [s \in DOMAIN @ |-> @[s] + (IF <<b, k, s>> \in R THEN 1 ELSE 0)]]]]
+SamePlace(S, l) == l \in DOMAIN S.origin /\ S.origin[l] = l
+
+TickS(op) ==
+  /\ ~err /\ now < MaxTicks
+  /\ OpOK(tree, op) /\ op.op # "addex"
+  /\ lastop' = op /\ lastmode' = "step"
+  /\ now' = now + 1
+  /\ LET P  == ProcPaths(tree)
+         T1 == BumpX(tree, P)
+         D  == DeriverPaths(T1)
+         T2 == StepPhase(Bump(T1, {}), eseq)                  \* derivers only ...
+         Td == [b \in Branches |-> [k \in DOMAIN T1[b] |->
+                  [T1[b][k] EXCEPT !.cnt = [s \in DOMAIN @ |->
+                      IF s \in TplDerivers(T1[b][k].tpl) THEN @[s] + Occurs(eseq, <<b, k, s>>) ELSE @[s]]]]]
+         G0 == {p \in StepPaths(T1) \ D : p[3] = "s1"}
+         Tg == Bump(Td, G0)
+         S0 == [tree |-> Tg, eseq |-> eseq, origin |-> [l \in Locs(Tg) |-> l]]
+         S1 == Struct(S0, op)
+         G1 == {p \in StepPaths(T1) \ D : p[3] = "s2" /\ SamePlace(S1, <<p[1], p[2]>>)}
+         T3 == Bump(S1.tree, G1)
+         R  == {p \in D \cup G0 : TRUE} \cup G1
+     IN /\ NComps(S1.tree) <= MaxComps
+        /\ tree' = T3
+        /\ eseq' = S1.eseq
+        /\ origin' = S1.origin
+        /\ invoked' = [p \in P \cup R |-> IF p \in D THEN Occurs(eseq, p) ELSE 1]
+        \* a step that ran saw its upstream counter as it was when it ran
+        /\ seen' = [p \in {r \in D \cup G0 \cup G1 :
+                              Upstream(CompAt(T1, <<r[1], r[2]>>).tpl, r[3]) # "-"} |->
+                      LET up == Upstream(CompAt(T1, <<p[1], p[2]>>).tpl, p[3])
+                      IN IF p \in G1 THEN CompAt(S1.tree, <<p[1], p[2]>>).cnt[up]
+                                     ELSE CompAt(Tg, <<p[1], p[2]>>).cnt[up]]
+        /\ leaves' = LeavesAfter(leaves, op)
+        /\ err' = FALSE
 
 Ops ==
   {[op |-> "none"]}
@@ -172,8 +245,10 @@ Ops ==
   \cup {[op |-> "div", k |-> k, d1 |-> a, d2 |-> b] : k \in Names, a \in Names, b \in Names}
   \cup {[op |-> "adddel", k |-> k, x0 |-> 5, k2 |-> j] : k \in Names, j \in Names}
   \cup {[op |-> "gendel", k |-> k, tpl |-> t, x0 |-> 0, k2 |-> j] : k \in Names, t \in Tpls, j \in Names}
+  \cup {[op |-> "addleaf", k |-> k, v |-> v] : k \in Names, v \in {0, 7}}
+  \cup {[op |-> "delleaf", k |-> k] : k \in Names}
 
-Next == \E op \in Ops : Tick(op)
+Next == \E op \in Ops : Tick(op) \/ TickS(op)
 Spec == Init /\ [][Next]_vars
 
 -----------------------------------------------------------------------------
@@ -186,8 +261,13 @@ C10_DeriversOnce ==
   /\ \A i, j \in 1..Len(eseq) : i # j => eseq[i] # eseq[j]
 \* C10: what ran in the last tick is exactly what was in the hierarchy
 C10_RanExactlyHierarchy ==
-  (now > 0 /\ ~err) => /\ \A p \in StepPaths(tree) : p \in DOMAIN invoked /\ invoked[p] = 1
-                      /\ \A p \in DOMAIN invoked : invoked[p] = 1
+  (now > 0 /\ ~err) =>
+     \* every step in the hierarchy ran exactly once - except, when the phase
+     \* itself changed the structure, those created or moved during it
+     /\ \A p \in StepPaths(tree) :
+           (lastmode = "proc" \/ SamePlace([origin |-> origin], <<p[1], p[2]>>))
+              => (p \in DOMAIN invoked /\ invoked[p] = 1)
+     /\ \A p \in DOMAIN invoked : invoked[p] = 1
 \* C09 (frame): a compartment that the operation does not name keeps its
 \* identity and its values apart from its own process' and steps' increments
 Named(op) ==
@@ -201,6 +281,9 @@ C09_Frame ==
            /\ CompAt(tree', l).x = CompAt(tree, l).x
                  + (IF "p" \in TplProcs(CompAt(tree, l).tpl) THEN 1 ELSE 0)]_vars
 \* C09 (effects)
+\* the named compartment's own process has added 1 before a step's operation
+\* is applied, and not yet when the (first-listed) director process' is
+Own(cmp) == IF lastmode' = "step" /\ "p" \in TplProcs(cmp.tpl) THEN 1 ELSE 0
 C09_Effects ==
   [][~err' =>
       LET op == lastop' IN
@@ -217,15 +300,22 @@ C09_Effects ==
             /\ \A d \in {op.d1, op.d2} :
                   Has(tree', "agents", d) /\ origin'[<<"agents", d>>] = New
                   /\ tree'["agents"][d].tpl = tree["agents"][op.k].tpl
-                  /\ tree'["agents"][d].x = tree["agents"][op.k].x)
+                  /\ tree'["agents"][d].x = tree["agents"][op.k].x + Own(tree["agents"][op.k]))
       /\ op.op = "move" =>
            (~Has(tree', "agents", op.k) /\ Has(tree', "pool", op.k)
             /\ origin'[<<"pool", op.k>>] = <<"agents", op.k>>
             /\ tree'["pool"][op.k].tpl = tree["agents"][op.k].tpl
-            /\ tree'["pool"][op.k].x = tree["agents"][op.k].x)
+            /\ tree'["pool"][op.k].x = tree["agents"][op.k].x + Own(tree["agents"][op.k]))
       /\ op.op = "moveback" =>
            (~Has(tree', "pool", op.k) /\ Has(tree', "agents", op.k)
             /\ origin'[<<"agents", op.k>>] = <<"pool", op.k>>)]_vars
+\* C09: plain variables added to a branch hold the given state, whatever it is
+C09_Leaves ==
+  [][~err' =>
+      /\ lastop'.op = "addleaf" => (lastop'.k \in DOMAIN leaves' /\ leaves'[lastop'.k] = lastop'.v)
+      /\ lastop'.op = "delleaf" => lastop'.k \notin DOMAIN leaves'
+      /\ lastop'.op \notin {"addleaf", "delleaf"} => leaves' = leaves
+      /\ \A k \in DOMAIN leaves \cap DOMAIN leaves' : leaves'[k] = leaves[k]]_vars
 \* C09: adding an existing key is rejected
 C09_AddExistingRejected == [][lastop'.op = "addex" => err']_vars
 TypeOK == now \in 0..MaxTicks /\ DOMAIN tree = Branches
